@@ -326,6 +326,14 @@ def run(c):
         drop = 'i.b' in evs and 'p2.0' in evs and evs.index('i.b') < evs.index('p2.0')
         vec[e] = ('1' if recheck else '0') + ('1' if drop else '0')
     c.notes['defect_vector'] = {e: {'recheck_after_unmatched': vec[e][0] == '1', 'drop_unnamed_internal': vec[e][1] == '1'} for e in vec}
+    # the variant read off the regenerated skeleton of step() must be the variant the code exhibits
+    sk = kv(ask_model(['skeleton'])[0])
+    c.notes['skeleton_variant'] = sk
+    for e in vec:
+        if sk.get(e) != vec[e][0]:
+            mismatches.append({'kind': 'correspondence', 'what': 'the landmark sequence of %s::step() regenerated from the source corresponds to control-model variant recheck=%s, '
+                               'the compiled code behaves as recheck=%s' % (e, sk.get(e), vec[e][0]), 'cmd': 'fifo-ctl %s %s %s' % (e, hexs(CHARTS['idle']), wit['recheck_script']),
+                               'observed': o[('large', 'fast').index(e)], 'model': str(sk)})
 
     # ---- 2. control-flow correspondence: fifo-ctl vs StepCtl.cstep ------------------------------------------
     ctl_cases = []
@@ -345,6 +353,8 @@ def run(c):
         xml, script, src = ctl_cases[j // 2]
         e = ('large', 'fast')[j % 2]
         if impl[j].startswith(('CRASH', 'EXC', 'ERR')):
+            if not impl[j].startswith('CRASH'):     # (crashes are collected by ask_impl)
+                mismatches.append({'kind': 'correspondence', 'what': 'driver error on a control-flow case', 'cmd': line, 'observed': impl[j][:300]})
             continue
         names = Names()
         ml, norm, toks = ctl_compare(e, xml, script, impl[j], vec[e], names)
@@ -425,20 +435,22 @@ def run(c):
     cases = []    # (engine, mode, chart, counts, sched)
     for k in corpus['sched']:
         cases.append(tuple(k))
-    if quick:
-        cvs, per, blocks = count_vectors(3, 3), 14, 6
-    else:
-        cvs, per, blocks = count_vectors(3, 3), 60, 7
+    # exhaustive at a bound on the number of context switches, a seeded sample beyond it
+    cvs = count_vectors(3, 3)
+    exh_blocks, deep_blocks, per = (4, 6, 10) if quick else (5, 8, 60)
     for cv in cvs:
         total = sum(cv)
         for mode in ('nb', 'blk'):
             nd = min(total + (1 if mode == 'nb' else 0), 6)
-            words = enum_schedules(cv, nd, blocks)
-            small = enum_schedules(cv, nd, 99) if total <= 3 else None
-            if small is not None:
-                words = small                      # all interleavings when small
-            elif len(words) > per:
-                words = rng.sample(words, per)
+            words = enum_schedules(cv, nd, 99 if total <= 3 else exh_blocks)     # all interleavings when <= 3 events
+            bump('sched_exhaustive_words', len(words))
+            if total > 3:
+                have = set(words)
+                deep = [w for w in enum_schedules(cv, nd, deep_blocks) if w not in have] if (total <= 6 or not quick or len(cv) < 3) else []
+                if not deep:
+                    # too many to enumerate cheaply: draw random interleavings with the same multiset of operations
+                    deep = list({''.join(rng.sample(list(w0), len(w0))) for w0 in [words[0]] for _ in range(per * 3)} - have)
+                words = words + (rng.sample(deep, per) if len(deep) > per else deep)
             for w in words:
                 e = rng.choice(['large', 'fast'])
                 ch = rng.choice(['idle', 'raise', 'chain'])
@@ -532,7 +544,8 @@ def run(c):
                 rc, o_, err = run_lines(tsan, tl[i:i + 40], env=env, timeout=3000)
                 outs += o_
                 reports += re.findall(r'WARNING: ThreadSanitizer: [^\n]*\n(?:.*\n){0,40}?(?=\n|=+\n)', err)
-            queue_reports = [r for r in reports if 'BasicEventQueue' in r or 'EventQueue::' in r]
+            # only the plain event queue is this property's subject (BasicDelayedEventQueue / teardown races are C09/C10)
+            queue_reports = [r for r in reports if re.search(r'uscxml::BasicEventQueue::|uscxml::EventQueue::(enqueue|dequeue)', r)]
             c.notes['tsan'] = {'cases': len(tl), 'answers': len(outs), 'reports': len(reports), 'reports_in_event_queue': len(queue_reports),
                                'report_heads': sorted(set(r.split('\n')[0] + ' @ ' + (re.findall(r'#0 ([^\n]*)', r) or ['?'])[0][:120] for r in reports))[:12]}
             c.cov['evaluations'] += len(tl)
@@ -545,18 +558,18 @@ def run(c):
 
     # ---- coverage -------------------------------------------------------------------------------------------
     c.cov['distinct_nontrivial'] = len(sched_nontriv) + len(ctl_nontriv)
-    c.cov['rule'] = ('forced schedules: corpus + for every count vector of <=3 producers x <=3 events, blocking and non-blocking step, all interleavings '
-                     'when <=3 events else a seeded sample of the interleavings with <=%d blocks (<=6 scheduled dequeues)%s; non-trivial = distinct '
+    c.cov['rule'] = ('forced schedules: corpus + for every count vector of <=3 producers x <=3 events, blocking and non-blocking step, <=6 scheduled dequeues: ALL interleavings '
+                     'when <=3 events, else all interleavings with <=%d blocks (context switches + 1) and a seeded sample of deeper ones%s; non-trivial = distinct '
                      '(engine, mode, chart, counts, schedule) in which an enqueue critical section lies between two dequeue critical sections that follow '
                      'an enqueue (%d).  Control flow: corpus + %d random flat charts x random receive/step scripts on both engines; non-trivial = distinct case '
                      'in which both internal and external events were processed (%d).  Free running: %d runs judged by the oracles only.'
-                     % (blocks, '' if quick else ' + 400 random schedules of 2-10 producers x 1-100 events', len(sched_nontriv), nctl, len(ctl_nontriv), len(flines)))
+                     % (exh_blocks, '' if quick else ' + 400 random schedules of 2-10 producers x 1-100 events', len(sched_nontriv), nctl, len(ctl_nontriv), len(flines)))
     c.cov['input_distribution'] = hist
     c.cov['samples'] = samples
     c.cov['disagreements'] = len(mismatches)
     c.notes['mismatch_examples'] = mismatches[:6]
     c.cov['oracle_failures'] = len(findings)
-    c.cov['exhaustive'] = 'all interleavings for <=3 events in total; sampled above'
+    c.cov['exhaustive'] = 'all interleavings for <=3 events in total and all interleavings with <=%d blocks for <=3 producers x <=3 events; sampled beyond' % exh_blocks
 
     # ---- classification ---------------------------------------------------------------------------------------
     for cr in crashes:
